@@ -88,6 +88,20 @@ def model_line(c, K, cvs):
         for q in qs:
             p += [str(i) for i in q]
         return " ".join(p)
+    if fam == "histrestraint":
+        import math
+        p = ["HISTR", hx(M["k"]), hx(math.pi), hx(M["sigma"]), hx(M["lower"]), hx(M["width"]), str(len(M["ref"]))]
+        p += [hx(x) for x in M["ref"]] + [str(c["it0"]), str(T), str(K), str(len(cvs[0]))]
+        for t in range(T):
+            p += [hx(x) for x in cvs[t]]
+        return " ".join(p)
+    if fam == "eabf":
+        X = M["x"]
+        p = ["EABF", hx(X["dt"]), hx(X["mass"]), hx(X["k"]), "1" if X["langevin"] else "0", hx(X["gf"]), hx(X["sigma"]),
+             hx(M["lower"]), hx(M["width"]), str(M["nx"]), str(M["full"]), str(M["min"]), str(c["it0"]), str(T), str(K)]
+        for t in range(T):
+            p += [hx(c["pos"][t][0]), hx(X["rnd"])]
+        return " ".join(p)
     if fam == "extlag":
         X = M["x"]
         p = ["EXTLAG", hx(X["dt"]), hx(X["mass"]), hx(X["k"]), "1" if X["langevin"] else "0", hx(X["gf"]), hx(X["sigma"]),
@@ -271,6 +285,51 @@ def compare_case(c, K, fmt, mo, A, B, files):
             nh = len(re.findall(r"(?m)^\s*hill\s*\{", txt))
             if nh != int(mo["S"]["NH"]):
                 bad.append(("meta:state:hills", nh, int(mo["S"]["NH"])))
+        return bad
+    if fam == "histrestraint":
+        for tag, impl_steps, off in (("A", A, K + 1), ("B", B, 0)):
+            ms = mo[tag]
+            if len(ms) != len(impl_steps) - off:
+                bad.append(("histrestraint:%s:steps" % tag, len(impl_steps) - off, len(ms)))
+                continue
+            for j, m in enumerate(ms):
+                blk = impl_steps[off + j]
+                if int(m["it"]) != blk["it"] or not close(blk["bias"].get("hr", float("nan")), float.fromhex(m["E"])):
+                    bad.append(("histrestraint:%s:energy" % tag, (blk["it"], blk["bias"].get("hr")), (m["it"], float.fromhex(m["E"]))))
+                    break
+        return bad
+    if fam == "eabf":
+        for tag, impl_steps, off in (("A", A, K + 1), ("B", B, 0)):
+            ms = mo[tag]
+            if len(ms) != len(impl_steps) - off:
+                bad.append(("eabf:%s:steps" % tag, len(impl_steps) - off, len(ms)))
+                continue
+            for j, m in enumerate(ms):
+                blk = impl_steps[off + j]
+                if int(m["it"]) != blk["it"] or not close(blk["cv"]["v0"][0], float.fromhex(m["XR"])) \
+                   or not close(blk["atomf"]["1"][2], float.fromhex(m["FA"])):
+                    bad.append(("eabf:%s:extended-value-force" % tag, (blk["it"], blk["cv"]["v0"][0], blk["atomf"]["1"][2]),
+                                (m["it"], float.fromhex(m["XR"]), float.fromhex(m["FA"]))))
+                    break
+        for tag, fpath in (("S", files["a"]), ("A", files["fA"]), ("B", files["fB"])):
+            if tag == "S" and fmt != "text":
+                continue
+            blk = state_block(fpath, "abf", "a")
+            g = (mo["S"] if tag == "S" else mo[tag + "X"])
+            mc = [int(x) for x in g["CNT"].split(",")]
+            mg = flist(g["GRAD"])
+            ic = [float(x) for x in blk.get("samples", [])] if blk else None
+            ig = [float(x) for x in blk.get("gradient", [])] if blk else None
+            if ic is None or len(ic) != len(mc) or any(a != b for a, b in zip(ic, mc)):
+                bad.append(("eabf:%s:samples" % tag, ic, mc))
+            elif ig is None or not cmp_list(ig, mg):
+                bad.append(("eabf:%s:gradient" % tag, ig, mg))
+        if fmt == "text":
+            cb = state_block(files["a"], "colvar", "v0")
+            for key in ("x", "extended_x", "extended_v"):
+                iv = cb.get(key) if cb else None
+                if iv is None or not close(float(iv[0]), float.fromhex(mo["S"][key])):
+                    bad.append(("eabf:state:%s" % key, iv, float.fromhex(mo["S"][key])))
         return bad
     if fam == "abf":
         nd = c["model"]["nd"]
